@@ -22,7 +22,7 @@ CLAIMS = {
             "TAG/FIN/DOM rules over clang AST/CFG", "3 C07"),
     "C09": ("the reference-counting safety argument reduced to code-shape facts on String, Variant, Xml::Variant, RefCount::Ptr: atomic-only counter updates, release only under `Atomic::decrement(..) == 0` evaluated in the condition, increment on every share, release before overwrite, acquire before release, paired handle fields, rule of three, clone target, exclusive-owner valuations, no in-place String text write without detach()/sole-owner test/fresh block; these imply exactly-once release under every interleaving of threads owning distinct handles, given full-barrier __sync builtins; no read of an assignment's argument after the release of the own payload (the argument may live inside it); every path through an increment stores that block into the handle; weak-memory effects and misuse of one handle by two threads are NOT decided",
             "WHO/DOM/MPT/ORD/PAIRF/FIN rules over clang AST/CFG", "3 C09"),
-    "C10": ("protocol-shape rules on Future.hpp/Future.cpp: publication order (call once -> result -> state -> signal -> delete; join before reading; startProc prepares the future before handing the job over), reset-and-recheck before every queue wait, wake-up after every hand-off, atomic-only ring indices with fill-before-publish and ticket-before-CAS, one dispatch per pop counted only for real jobs, thread count paired with worker creation / retire tickets, spin-lock release and re-read in the lazy pool creation, worker list under the mutex; the result conversion has no way around join() unless the state is reset per run; one hand-over per job (no push after a successful push before the wake-up); liveness (every join eventually returns), lock-freedom and exactly-once under all interleavings of the ring are NOT decided",
+    "C10": ("protocol-shape rules on Future.hpp/Future.cpp: publication order (call once -> result -> state -> signal -> delete; join before reading; startProc prepares the future before handing the job over), reset-and-recheck before every queue wait, wake-up after every hand-off, atomic-only ring indices with fill-before-publish and ticket-before-CAS, one dispatch per pop counted only for real jobs, thread count paired with worker creation / retire tickets, spin-lock release and re-read in the lazy pool creation, worker list under the mutex; the result conversion has no way around join() unless the state is reset per run; one hand-over per job (no push after a successful push before the wake-up); FastSignal::reset re-validates the flag after resetting the Signal; liveness (every join eventually returns), lock-freedom and exactly-once under all interleavings of the ring are NOT decided",
             "ORD/MPT/DOM/WHO path rules over clang AST/CFG", "3 C10"),
     "C12": ("structural rules on Callback: slot fields consulted only under a state test, physical removal only with no active emission and marking sets dirty, both sides updated together, all nine emit arities test state before and `invalidated` after each invocation and agree with each other, activation chain push/pop/propagation, ~Emitter invalidates first, every unlinking loop matches a record on all its identity fields, liveness table of the state tests (connected where invoked, connected+connecting where matched or torn down), Emitter/Listener not copyable; `dirty` is cleared only where no emission is active; the invocation log against a model of live connections over all nested histories is NOT decided",
             "DOM/MPT/PAIRF rules + sibling comparison over clang AST/CFG", "3 C12"),
